@@ -136,7 +136,25 @@ def analyse_map(fx, fn_path, group_ty, n_params, a0, rep, label):
             # which parameter does the argument designate?
             ref = fr.res.operand_referent(args[0])
             leaf = None
-            if ref and ref[0] == 'place' and ref[1]['p'] == [['deref']] and 1 <= ref[1]['l'] <= n_params:
+            # by value first: the argument designates the atom that stands for input i of the map, whichever frame the
+            # call sits in (a closure or helper applied to each input in turn has its own local numbering)
+            dv = argvals[0]
+            for _ in range(6):
+                if isinstance(dv, exp.Ref):
+                    if dv.root not in fr.store and ('*', dv.root) in fr.store and not dv.proj:
+                        dv = fr.store[('*', dv.root)]
+                    else:
+                        dv = fr._project(fr.store.get(dv.root, exp.TOP), dv.proj)
+                elif isinstance(dv, tuple) and len(dv) == 2 and dv[0] == 'byref':
+                    dv = dv[1]
+                else:
+                    break
+            in_root = fr.body is body
+            if isinstance(dv, tuple) and len(dv) == 2 and dv[0] == 'input' and 1 <= dv[1] <= n_params:
+                leaf = ('sswu', dv[1])
+            elif not in_root:
+                pass        # local numbers of another body say nothing about the map's inputs
+            elif ref and ref[0] == 'place' and ref[1]['p'] == [['deref']] and 1 <= ref[1]['l'] <= n_params:
                 leaf = ('sswu', ref[1]['l'])
             elif ref is None:
                 p = args[0][1] if args[0][0] in ('c', 'm') else None
